@@ -238,6 +238,7 @@ class Proxy(object):
         annotations = current_context.annotations
         if vargs and isinstance(vargs[0], SerializedBlob):
             # special serialization of a 'blob' that stays serialized
+            annotations = dict(annotations)     # the blob's info is added for this message only, not to the caller's annotations
             if vargs[0]._contains_blob:
                 # its bytes are passed on as they are: the message has to name the serializer that wrote them
                 serializer = serializers.serializers_by_id[vargs[0]._data.serializer_id]
